@@ -42,6 +42,11 @@ def generate_wind(ctx):
             want = {"south": (Num(0), -s), "west": (-s, Num(0)), "north": (Num(0), s), "east": (s, Num(0))}[toward]
             run.oblige("lemma.cardinal-%d-blows-toward-%s" % (deg, toward), loops.scalar_eq(uu, want[0]) & loops.scalar_eq(vv, want[1]),
                        kind="lemma", cls="lemma", props=P)
+    ctx.explore("utils.compute_wind_fields", thunk, P)
+
+    def thunk_arr(run):
+        run.scope = "utils.compute_wind_fields[arrays]"
+        pi = transc.PI()
         # array arguments: the scalar contract holds elementwise
         n = sym.fresh_int("n")
         run.assume(n >= 1)
@@ -49,7 +54,7 @@ def generate_wind(ctx):
         ua, va = f(sa, ta)
         loops.oblige_equal(run, "elementwise.u", ua, Arr([Axis(n)], lambda k: -sa.at(k) * transc.sin(ta.at(k) * pi / 180), "float"), kind="post", props=P)
         loops.oblige_equal(run, "elementwise.v", va, Arr([Axis(n)], lambda k: -sa.at(k) * transc.cos(ta.at(k) * pi / 180), "float"), kind="post", props=P)
-    ctx.explore("utils.compute_wind_fields", thunk, P)
+    ctx.explore("utils.compute_wind_fields[arrays]", thunk_arr, P)
 
 
 def generate_point(ctx):
